@@ -7,7 +7,7 @@
    the bit-exact correspondence and the falsifier (C03_recollapse covers the manager half). *)
 From Coq Require Import ZArith List String Bool.
 From Hexital Require Import Base.Prelude Base.Num Model.Manager Model.Candle Model.Readings Model.Engine
-  Proofs.EngineProofs Proofs.CausalProofs.
+  Proofs.EngineProofs Proofs.CausalProofs Proofs.AnalysisProofs Model.Analysis.
 Import ListNotations.
 Local Open Scope Z_scope.
 
@@ -61,3 +61,26 @@ Proof.
   intros O I period input sm K Hp Hs. split; [intros; eapply ema_pure; exact K|eapply ema_causal; eassumption].
 Qed.
 Print Assumptions C01_obligations_EMA.
+
+(* SMA reads input[index - period] once it has a previous reading; that look-back stays inside
+   the list (instead of wrapping around to the newest candles) only because, on a canonical
+   store, readings exist from index period-1 on - the invariant is part of the proof *)
+Theorem C01_obligations_SMA : forall (O : NumOps) (I : ind O) period input,
+  i_kind O I = K_SMA period input -> 1 <= period -> stable O I input -> i_sub O I = false ->
+  (has_dot (i_name O I) = false /\ forall q, candle_attr O q (i_name O I) = None) ->
+  (forall rec st i, calc_reading O rec I st i = (v <- pure_calc O I st i ;; Ok (v, st))) /\ Causal O I (pure_calc O I).
+Proof.
+  intros O I period input K Hp Hs Ht Hn. split; [intros; eapply sma_pure; exact K|eapply sma_causal; eassumption].
+Qed.
+Print Assumptions C01_obligations_SMA.
+
+(* every pattern / movement function wrapped as an indicator (Amorph): causality is C16's
+   truncation theorem plus the fact that the function sees a candle only through its OHLCV
+   and the readings it names *)
+Theorem C01_obligations_AMORPH : forall (O : NumOps) (I : ind O) (f : afun),
+  i_kind O I = K_AMORPH f -> wf_afun f = true -> (forall n, In n (names_of f) -> stable O I n) ->
+  (forall rec st i, calc_reading O rec I st i = (v <- pure_calc O I st i ;; Ok (v, st))) /\ Causal O I (pure_calc O I).
+Proof.
+  intros O I f K Hw Hs. split; [intros; eapply amorph_pure; exact K|eapply amorph_causal; eassumption].
+Qed.
+Print Assumptions C01_obligations_AMORPH.
